@@ -381,12 +381,12 @@ func (d *drv) random(t int, rnd *rand.Rand, suppress bool) {
 		}
 		return m
 	}
-	// parent lists without repetition: a repeated profile id makes the index panic when the endpoint
-	// goes away (C04 finding) - that input is confined to the dedicated trace at the end of main()
+	// parent lists, sometimes with a repeated profile id (an endpoint listing the same profile twice
+	// used to make the index panic when it went away: C04 finding fixed in /repo b6b9694)
 	parentList := func() []string {
 		out := []string{}
-		for _, i := range rnd.Perm(len(parents))[:rnd.Intn(len(parents)+1)] {
-			out = append(out, parents[i])
+		for i := 0; i < rnd.Intn(len(parents)+2); i++ {
+			out = append(out, parents[rnd.Intn(len(parents))])
 		}
 		return out
 	}
@@ -475,7 +475,8 @@ func main() {
 		t++
 		d.random(t, rand.New(rand.NewSource(env.Seed*1000003+int64(i))), i%2 == 1)
 	}
-	// dedicated trace: an endpoint that lists the same profile twice, then drops it
+	// regression trace of the C04 finding fixed in /repo b6b9694: an endpoint that lists the same profile
+	// twice, then drops it
 	t++
 	d.start(t, false)
 	d.updateParent("p0", map[string]string{"a": "x"})
